@@ -96,6 +96,11 @@ def motl_has_exactly_the_20_fields(self):
     if ctx is None or not ctx.active or df is None or not isinstance(df, pd.DataFrame):
         return True          # transient construction state (EmMotl.__init__ calls public methods before df exists)
     ok = sorted(map(str, df.columns)) == sorted(COLS)
+    if not ok and (ctx.cur or {}).get("index") == "ridealong":
+        # cryoCAT's own tests assign malformed frames to .df on purpose; the property only speaks about what the listed
+        # operations do to well-formed lists, and a class invariant cannot tell who broke the table: counted, not judged
+        ctx.ood("motl_invariant(icontract)")
+        return True
     ctx.check("motl_invariant(icontract)", ok, {"columns": [str(c) for c in df.columns]})
     return True              # record and return: never raise into cryoCAT
 
